@@ -252,7 +252,8 @@ def gen_class(rng, idx):
         params.append(p)
         if c['t'] in ('double', 'int') and c.get('min') is not None and rng.random() < 0.3:
             k = rng.choice(['min', 'max', 'limits'])
-            params.append({'name': f'{name}_{k}', 'dt': None, 'limit': k, 'base': name, 'needscfg': False,
+            params.append({'name': f'{name}_{k}', 'dt': None, 'gdt': c if k != 'limits' else None,
+                           'limit': k, 'base': name, 'needscfg': False,
                            'write': rng.random() < 0.4, 'read': False, 'readonly': False, 'default': None,
                            'pyvalue_default': None, 'value': None, 'export': True})
     modprops = []
@@ -396,7 +397,7 @@ def final_dt_guess(c, items):
 def gen_param_cfg(rng, p, force_value=False):
     """list of (key, pyvalue) for one parameter: mostly valid"""
     items = []
-    c = p['dt']
+    c = p['dt'] or p.get('gdt')          # for <base>_min/_max: the class datatype of the base (generator bookkeeping only)
     if c is not None:
         t = c['t']
         if t in ('double', 'int') and rng.random() < 0.4:
@@ -447,7 +448,7 @@ ERR_KINDS = ['unknown_name', 'unknown_param_prop', 'bad_value', 'bad_param_prop'
 
 def inject(rng, spec, cfg, kind):
     """mutate cfg (dict name -> ('bare', v) | ('dict', [(k, v)])) to contain one error of the kind; returns a tag or None"""
-    real = [p for p in spec['params'] if p['dt'] is not None]
+    real = [dict(p, dt=p['dt'] or p.get('gdt')) for p in spec['params'] if (p['dt'] or p.get('gdt')) is not None]
     if kind == 'unknown_name':
         k = rng.choice(['zz', 'pq', 'Value', 'targett'])
         cfg[k] = rng.choice([('bare', 1), ('dict', [('value', 2)]), ('dict', [('max', 2)])])
@@ -642,7 +643,7 @@ RX = [
     (re.compile(r"^'(\w+)' has no default value and was not given in config"), lambda m: {'k': 'needsCfg', 'param': m.group(1)}),
     (re.compile(r"^(.*) does not exist \(use one of"), lambda m: {'k': 'unknownNames', 'keys': m.group(1).split(', ')}),
     (re.compile(r"^ConfigError: (\w+) needs a value of type"), lambda m: {'k': 'mandatory', 'key': m.group(1)}),
-    (re.compile(r"^(\w+): ConfigError: min\w*=.* must be <= max"), lambda m: {'k': 'badDatatype', 'param': m.group(1)}),
+    (re.compile(r"^(\w+): .*min\w*=.* must be <= max"), lambda m: {'k': 'badDatatype', 'param': m.group(1)}),
 ]
 
 
@@ -970,8 +971,6 @@ def violation_sig(judge, obs, mo):
         return 'C10:half-applied:registered-and-reported' if obs['registered'] else 'C10:rejected-without-report'
     if not judge['rejected']:
         return 'C10:erroneous-config-accepted'
-    if not judge['rejectedLimit']:
-        return 'C10:limit-cfg-ignored'
     if not judge['applied']:
         bad = [p['name'] for p in obs['params'] if p['described'] is not None and p['reach'] != [p['described']]]
         bad += [p['name'] for p in obs['params'] if p['described'] is None and p['reach']]
